@@ -6,7 +6,6 @@ import (
 	"time"
 
 	"verif/sim/simrt"
-	"verif/sim/simwire"
 )
 
 // C16 — the exit delay is honoured: late replies are still reported, then the program exits.
@@ -70,24 +69,7 @@ func runC16(t *testing.T, c simrt.Chooser, o Opts) *Out {
 		// delay): each is logged and the receiver pauses briefly; the delay itself must not move and
 		// replies arriving later in the window must still be reported
 		nReadErrs = 3 + p.n("nreaderrs", 10)
-		gap := sc.exitDelay * 6 / 10 / time.Duration(nReadErrs+1)
-		inner := sc.World.onFilter
-		sc.World.onFilter = func(n *simwire.Net, sk *simwire.Sock) {
-			if inner != nil {
-				inner(n, sk)
-			}
-			if sk.ID != 0 {
-				return
-			}
-			for k := 1; k <= nReadErrs; k++ {
-				k := k
-				n.At(time.Duration(k)*gap+time.Duration(k), func() {
-					simrt.Fault("rx-errno")
-					sk.ScriptReadErrors(fmt.Errorf("recvmsg: input/output error (injected #%d)", k))
-				})
-			}
-		}
-		sc.ReadErrs = nReadErrs
+		injectReadErrors(sc, nReadErrs)
 	}
 	out.Scenario = sc
 	cr := runPacketScenario(t, c, o, sc)
